@@ -19,8 +19,11 @@
 //   pI       bloc_ctx_purge(I)            fI   bloc_free_context(I)        eX   bloc_free_executable(X)
 //   nI       bloc_create_context (a fresh, unrelated context in slot I)
 //   bI       bloc_break(I)                uI   bloc_reset_stop(I)
+//   gI.B     Context::trusted(B) on I     vI.B bloc_ctx_enable_trace(I, B)          (B = 0|1)
 //   lI       answer CI=... now and LEAK context I (never destroyed)
-// After the last round every live context answers  CI=<hex output>~<dump as blocprobe's `dump`>.
+// After the last round every live context answers  CI=<hex output>~<dump as blocprobe's `dump`>
+// (the dump ends with cond=<stop-condition bits: 4 = return/break pending> fn=<function table IN TABLE
+// ORDER: hexname/arity/body/cached call contexts/return type,...>) and FI=<trusted 0|1><trace 0|1>.
 // An action on a missing context/executable answers `?<action>`.
 #define main blocprobe_main
 #include "blocprobe.cpp"
@@ -49,7 +52,8 @@ static std::string finalOf(int i) {
   struct stat st; fstat(c.fd, &st);
   std::string o(st.st_size, 0);
   if (st.st_size) { ssize_t n = pread(c.fd, &o[0], o.size(), 0); if (n < 0) n = 0; o.resize(n); }
-  return "C" + std::to_string(i) + "=" + hexenc(o) + "~" + plus(doDump(*cx));
+  return "C" + std::to_string(i) + "=" + hexenc(o) + "~" + plus(doDump(*cx)) +
+         " F" + std::to_string(i) + "=" + (cx->trusted() ? "1" : "0") + (bloc_ctx_trace(c.ctx) ? "1" : "0");
 }
 
 static void doAction(const std::string& act) {
@@ -100,6 +104,8 @@ static void doAction(const std::string& act) {
   }
   if (k == 'e') { int x = num(0); if (!t_exe[x]) { answer("?" + act); return; } bloc_free_executable(t_exe[x]); t_exe[x] = nullptr; return; }
   if (k == 'b') { ThrCtx& c = t_ctx[num(0)]; if (!c.ctx) { answer("?" + act); return; } bloc_break(c.ctx); return; }
+  if (k == 'g') { ThrCtx& c = t_ctx[num(0)]; if (!c.ctx) { answer("?" + act); return; } reinterpret_cast<Context*>(c.ctx)->trusted(num(1) != 0); return; }
+  if (k == 'v') { ThrCtx& c = t_ctx[num(0)]; if (!c.ctx) { answer("?" + act); return; } bloc_ctx_enable_trace(c.ctx, num(1) ? bloc_true : bloc_false); return; }
   if (k == 'u') { ThrCtx& c = t_ctx[num(0)]; if (!c.ctx) { answer("?" + act); return; } bloc_reset_stop(c.ctx); return; }
   answer("?" + act);
 }
